@@ -250,13 +250,15 @@ func runC11(c *core.Ctx) {
 				if !ok {
 					return false
 				}
+				// basicnode style: assembler.state = <the constant Finish stores> (written out, or taken from a constant
+				// table under an index known on this path)
+				if fa, ok := st.Addr.(*ssa.FieldAddr); ok && isStateField(fa) {
+					k, isK := core.PathConst(st.Val)
+					return isK && fin != "" && k == fin
+				}
 				cv := core.ConstVal(st.Val)
 				if cv == nil {
 					return false
-				}
-				// basicnode style: assembler.state = <the constant Finish stores>
-				if fa, ok := st.Addr.(*ssa.FieldAddr); ok && isStateField(fa) {
-					return fin != "" && cv.ExactString() == fin
 				}
 				// generated style: *assembler.m = schema.Maybe_Value (the slot's completion marker)
 				if u, ok := st.Addr.(*ssa.UnOp); ok {
@@ -276,6 +278,150 @@ func runC11(c *core.Ctx) {
 
 	c.Rule("C11.decoderbytes", decoderBytesText, 4)
 	checkDecoderBytes(c)
+
+	c.Rule("C11.afterfinish", "a finished assembler cannot be made to write again: for every assembler type whose only completion marker is an enum state field (basicnode's recursive assemblers), no method of the assembler - entered with the state equal to the constant its Finish stores - can reach a store into the node under construction (through the assembler's pointer to that node): every writing method tests the state first, so that calling it on a builder whose node was already handed out panics instead of changing that node", 4)
+	{
+		naI := p.Iface("datamodel", "NodeAssembler")
+		nAsm := 0
+		for _, im := range p.Implementers(naI, func(rel string) bool { return rel == "node/basicnode" }) {
+			st, ok := im.Named.Underlying().(*types.Struct)
+			if !ok {
+				continue
+			}
+			hasState, hasMaybe, hasNodePtr := false, false, false
+			for i := 0; i < st.NumFields(); i++ {
+				ft := st.Field(i).Type()
+				if isEnumType(ft) {
+					hasState = true
+				}
+				if pt, ok := ft.Underlying().(*types.Pointer); ok {
+					if nt := namedOfType(pt.Elem()); nt != nil {
+						if nt.Obj().Name() == "Maybe" {
+							hasMaybe = true
+						}
+						if node := p.Iface("datamodel", "Node"); node != nil && (types.Implements(nt, node) || types.Implements(types.NewPointer(nt), node)) {
+							hasNodePtr = true
+						}
+					}
+				}
+			}
+			if !hasState || hasMaybe || !hasNodePtr {
+				continue
+			}
+			fin := finishedConst(p, im)
+			if fin == "" {
+				continue
+			}
+			nAsm++
+			ms := p.SSA.MethodSets.MethodSet(types.NewPointer(im.Named))
+			for i := 0; i < ms.Len(); i++ {
+				fn := p.SSA.MethodValue(ms.At(i))
+				if fn == nil || len(fn.Blocks) == 0 || fn.Synthetic != "" || len(fn.Params) == 0 {
+					continue
+				}
+				recv := fn.Params[0]
+				rg := core.RegionOf(fn)
+				isStateLoad := func(v ssa.Value) bool {
+					u, ok := core.Strip(v).(*ssa.UnOp)
+					if !ok || u.Op != token.MUL {
+						return false
+					}
+					fa, ok := u.X.(*ssa.FieldAddr)
+					return ok && isStateField(fa) && (core.Strip(fa.X) == ssa.Value(recv) || rg.Canon(fa.X) == ssa.Value(recv))
+				}
+				isNodeWrite := func(in ssa.Instruction) bool {
+					var addr ssa.Value
+					switch x := in.(type) {
+					case *ssa.Store:
+						addr = x.Addr
+					case *ssa.MapUpdate:
+						addr = x.Map
+					default:
+						return false
+					}
+					// the address goes through a load of the receiver's pointer-to-node field
+					for w := range core.BackSlice(addr, core.SliceOpts{Region: rg}) {
+						u, ok := w.(*ssa.UnOp)
+						if !ok || u.Op != token.MUL {
+							continue
+						}
+						if fa, ok := u.X.(*ssa.FieldAddr); ok && isPtrToNodeField(p, fa) && (core.Strip(fa.X) == ssa.Value(recv) || rg.Canon(fa.X) == ssa.Value(recv)) {
+							return true
+						}
+					}
+					return false
+				}
+				writes := false
+				core.InstrsR(fn, func(in ssa.Instruction) {
+					if isNodeWrite(in) {
+						writes = true
+					}
+				})
+				if !writes {
+					continue
+				}
+				path, reached := core.ReachFact(fn, nil, isNodeWrite, nil, nil, isStateLoad, fin)
+				c.Check(!reached, core.FuncKey(fn)+"#no-write-when-finished", p.Pos(fn.Pos()), "writes the node only while the assembler is not finished", fn.Name()+" can write into the node under construction although the assembler is in its finished state: called on a builder after Build() it changes (empties, overwrites) the node that was already handed out", p.Witness(path)...)
+			}
+		}
+		if nAsm == 0 {
+			c.Undecided("node/basicnode#state-marked-assemblers", "-", "no assembler with an enum state field and a pointer to its node found")
+		}
+	}
+
+	c.Rule("C11.sharedseeker", "an io.ReadSeeker kept in a field is shared (the node it came from, other views of it, hand out the same one), so its position is nobody's: every method of a library type that calls Read on a ReadSeeker held in a field of its receiver does so only after a Seek on that same field in the same activation, on every path", 1)
+	{
+		nrs := 0
+		for _, fn := range p.ModFns {
+			pk := core.FuncPkg(fn)
+			if pk == nil || !libraryPkg(core.RelPkg(pk.Path())) || len(fn.Blocks) == 0 || fn.Synthetic != "" || fn.Signature.Recv() == nil || len(fn.Params) == 0 {
+				continue
+			}
+			recv := fn.Params[0]
+			// the ReadSeeker-typed field a call's receiver is loaded from
+			heldField := func(v ssa.Value) string {
+				v = core.Strip(v)
+				u, ok := v.(*ssa.UnOp)
+				if ok && u.Op == token.MUL {
+					if fa, ok := u.X.(*ssa.FieldAddr); ok {
+						if root, _ := rootOfAddr(fa); core.RegionOf(fn).Canon(root) == ssa.Value(recv) {
+							return core.FieldName(fa)
+						}
+					}
+				}
+				if f, ok := v.(*ssa.Field); ok {
+					if core.RegionOf(fn).Canon(f.X) == ssa.Value(recv) || core.Strip(f.X) == ssa.Value(recv) {
+						return core.FieldName(f)
+					}
+				}
+				return ""
+			}
+			isSeeker := func(t types.Type) bool {
+				nt := namedOfType(t)
+				return nt != nil && nt.Obj().Pkg() != nil && nt.Obj().Pkg().Path() == "io" && (nt.Obj().Name() == "ReadSeeker" || nt.Obj().Name() == "ReadSeekCloser")
+			}
+			for _, ci := range core.Calls(fn) {
+				cc := ci.Common()
+				if !cc.IsInvoke() || cc.Method.Name() != "Read" || !isSeeker(cc.Value.Type()) {
+					continue
+				}
+				fld := heldField(cc.Value)
+				if fld == "" {
+					continue
+				}
+				nrs++
+				isSeek := func(in ssa.Instruction) bool {
+					cj, ok := in.(ssa.CallInstruction)
+					return ok && cj.Common().IsInvoke() && cj.Common().Method.Name() == "Seek" && heldField(cj.Common().Value) == fld
+				}
+				path, reached := core.Reach(fn, nil, isTarget(ci), nil, isSeek)
+				c.Check(!reached, fmt.Sprintf("%s#seek-before-read:%s", core.FuncKey(fn), fld), p.Pos(ci.Pos()), "positions the shared reader before reading", "Read on the ReadSeeker held in "+fld+" is reachable without a Seek on it in this activation: the reader is shared with the node it came from, so after that node (or another view of it) was read this view returns other bytes than before - reads of a finished node are not repeatable", p.Witness(path)...)
+			}
+		}
+		if nrs == 0 {
+			c.Undecided("library#held-readseekers", "-", "no method reads from a ReadSeeker held in its receiver (the subset view of large bytes was expected)")
+		}
+	}
 
 	c.Rule("C11.pure", "every method of the datamodel.Node read API (plus AsLargeBytes / AsUint) of every Node implementation in library packages - and what it statically calls in its own package - performs no non-fresh heap write except into a value it allocated, calls no reflect.Value.Set*, and reads a receiver-held io.Reader only after Seek(0, io.SeekStart) on it", 300)
 	nodeIface := p.Iface("datamodel", "Node")
@@ -550,6 +696,28 @@ func finishedConst(p *core.Program, im core.Impl) string {
 				}
 			}
 		})
+	}
+	if out == "" && len(fn.Blocks) > 0 {
+		// the state is set through a helper that takes it from a constant table (a transition table indexed by the
+		// step): the constant is known along each path of Finish
+		seen := map[string]bool{}
+		core.Reach(fn, nil, func(in ssa.Instruction) bool {
+			if st, ok := in.(*ssa.Store); ok {
+				if fa, ok := st.Addr.(*ssa.FieldAddr); ok && isStateField(fa) {
+					if k, ok := core.PathConst(st.Val); ok {
+						seen[k] = true
+					} else {
+						seen["?"] = true
+					}
+				}
+			}
+			return false
+		}, nil, nil)
+		if len(seen) == 1 && !seen["?"] {
+			for k := range seen {
+				out = k
+			}
+		}
 	}
 	return out
 }
